@@ -174,8 +174,9 @@ func c36ChainOut(c filter.Chain) c36Chain {
 		out.Names = append(out.Names, f.Name())
 	}
 	if len(c) == 0 {
-		// newPeer substitutes the accept-all chain for an empty one
-		c = filter.NewAcceptAllFilterChain()
+		// the server substitutes the reject-all chain for an empty one (newPeer and, checked by the server phase,
+		// the in-place replacement)
+		c = filter.NewDrainFilterChain()
 	}
 	h := sha1.New()
 	for _, ps := range c36Probes {
